@@ -439,6 +439,12 @@ pub mod verif_hooks {
         LAST_TIMESTAMP.load(Ordering::SeqCst)
     }
 
+    /// The BEP_0044 signable bytes for `timestamp` and the encoded DNS packet `v`
+    /// (the private `signable` function used for signing and verification).
+    pub fn signable_bytes(timestamp: u64, v: &[u8]) -> Vec<u8> {
+        super::signable(timestamp, v)
+    }
+
     pub(super) fn clock_override() -> Option<u64> {
         CLOCK.with(|c| c.get())
     }
